@@ -892,7 +892,7 @@ class InlineWalker(Walker):
         ct = self.closure_target(st, fname, args)
         if ct is not None:
             return self.inline_call(st, ct[0], ct[1])
-        af = self.adapter_forks(st, fname, args)
+        af = self.adapter_forks(st, fname, args) if getattr(self, "adapters", True) else None
         if af is not None:
             return af
         for nm in (resolved, fname):
@@ -930,6 +930,7 @@ class InlineWalker(Walker):
     def inline_call(self, st, callee, args):
         w = InlineWalker(callee, self.facts, self.pred, depth=self.depth + 1, max_paths=self.max_paths, unroll=self.unroll)
         w.root = self.root
+        w.adapters = getattr(self, "adapters", True)
         w.gen_map = generic_map(self, callee)
         s2 = self.fork(st)
         caller_env, caller_visits, caller_blocks = s2["env"], s2["visits"], s2["blocks"]
@@ -975,8 +976,9 @@ def generic_map(caller, callee):
     return {g: cm.get(a, a) for g, a in zip(gens, fa)}
 
 
-def walk_inline(body, facts, gen_map=None, **kw):
+def walk_inline(body, facts, gen_map=None, adapters=True, **kw):
     w = InlineWalker(body, facts, **kw)
+    w.adapters = adapters               # False: Result/Option combinators stay opaque calls (rules that classify those calls)
     if gen_map:
         w.gen_map = dict(gen_map)       # const generic arguments fixed for this analysis (e.g. the table flags off)
     return w.run()
